@@ -81,7 +81,7 @@ class PathClient(Client):
         return False
 
     def kill(self, s, name):
-        pat = re.compile(r'\b%s\b' % re.escape(name))
+        pat = re.compile(r'(?<![\w.])%s\b' % re.escape(name))          # the local itself, not an attribute of the same name
         return s.drop_if(lambda k, v: (k[0] == 'cond' and pat.search(k[1]) is not None)
                          or (k[0] == 'bind' and (k[1] == name or (v[0] == 'alias' and pat.search(v[1]) is not None))))
 
